@@ -62,7 +62,7 @@ func (c *c07) Assumptions() []string {
 }
 
 func (c *c07) ProbeNames() []string {
-	return []string{"window_recentred", "window_recentred_backward", "window_clamped_at_file_end", "file_shorter_than_window", "empty_file", "read_longer_than_window", "read_straddles_2048_multiple", "engine_file_larger_than_window", "engine_matches_compared", "engine_match_straddles_2048_multiple"}
+	return []string{"window_recentred", "window_recentred_backward", "window_clamped_at_file_end", "file_shorter_than_window", "empty_file", "read_longer_than_window", "read_straddles_2048_multiple", "engine_file_larger_than_window", "engine_matches_compared", "engine_match_straddles_2048_multiple", "two_readers_interleaved", "content_starts_with_bom"}
 }
 
 func (c *c07) SweepPrefix(phase string, i uint64) []uint64 {
@@ -140,22 +140,30 @@ func drawSize(t *Tape, maxRandom int) int {
 // posContent gives non-periodic, position-dependent bytes.
 func posContent(size int, salt uint64) []byte {
 	b := make([]byte, size)
+	mode := salt % 4 // 0,1 printable; 2 arbitrary bytes; 3 printable behind a UTF-8 byte order mark
 	for i := range b {
 		h := mix(uint64(i), salt)
 		ch := byte(' ' + h%90)
 		if h%23 == 0 {
 			ch = '\n'
 		}
+		if mode == 2 {
+			ch = byte(h >> 8)
+		}
 		b[i] = ch
+	}
+	if mode == 3 && size >= 3 {
+		b[0], b[1], b[2] = 0xEF, 0xBB, 0xBF
 	}
 	return b
 }
 
 type c07rop struct {
-	Op  string `json:"op"`
-	O   int    `json:"offset"`
-	N   int    `json:"length"`
-	Got string `json:"got,omitempty"`
+	File string `json:"file,omitempty"`
+	Op   string `json:"op"`
+	O    int    `json:"offset"`
+	N    int    `json:"length"`
+	Got  string `json:"got,omitempty"`
 }
 
 type c07readerDesc struct {
@@ -187,6 +195,15 @@ func (c *c07) Run(ctx *RunCtx) *RunResult {
 	return c.runReader(ctx)
 }
 
+type c07rd struct {
+	name    string
+	size    int
+	content []byte
+	fr, mr  *files.Reader
+	lastO   int
+	lastN   int
+}
+
 func (c *c07) runReader(ctx *RunCtx) *RunResult {
 	t := ctx.T
 	res := &RunResult{}
@@ -197,117 +214,139 @@ func (c *c07) runReader(ctx *RunCtx) *RunResult {
 	}
 	size := drawSize(t, 20000)
 	salt := uint64(t.Draw(1 << 20))
-	content := posContent(size, salt)
-	path := filepath.Join(ctx.World, "reader.bin")
-	if err := os.WriteFile(path, content, 0644); err != nil {
-		panic(err)
+	rds := []*c07rd{{name: "reader.bin", size: size, content: posContent(size, salt)}}
+	// sometimes a second reader on a second file, alive at the same time and used alternately
+	if t.Draw(3) == 1 {
+		s2 := drawSize(t, 20000)
+		rds = append(rds, &c07rd{name: "reader2.bin", size: s2, content: posContent(s2, salt+1)})
+		ctx.Count("two_readers_interleaved", 1)
 	}
 	nops := t.Range(1, 300)
 	d := &c07readerDesc{Size: size, Salt: salt}
 	simrt.Reset(1, nil, 1)
 	simrt.Solo()
 	simrt.OpStart(4000000)
-	var fr, mr *files.Reader
-	func() {
-		defer func() {
-			if x := recover(); x != nil {
-				addV("no-panic", "reader-open-panic:"+coarse(panicOutcome(x).Detail), fmt.Sprintf("files.ReaderFromFile on a %d-byte file panics: %s", size, panicOutcome(x).Detail))
-			}
-		}()
-		fr = files.ReaderFromFile(path)
-	}()
-	mr = files.ReaderFromString(string(content))
 	evh := mix(uint64(size), salt)
-	lastO, lastN := 0, 0
-	var sig []uint64
-	if fr != nil {
-		if fr.Size() != size {
-			addV("model", "reader-size", fmt.Sprintf("Size() = %d for a %d-byte file", fr.Size(), size))
-		}
-		for k := 0; k < nops; k++ {
-			var o, n int
-			switch t.Draw(9) {
-			case 0:
-				o = lastO + lastN // sequential forward
-			case 1:
-				o = lastO - 1 // one byte back (anchors)
-			case 2:
-				o = 2048*t.Range(0, size/2048+1) + t.Range(0, 4) - 2
-			case 3:
-				o = size - t.Range(0, 3)
-			case 4:
-				o = t.Range(0, 3)
-			case 5:
-				o = lastO - t.Range(1, 5000) // far back (backtracking)
-			case 6:
-				o = lastO + t.Range(1, 5000)
-			default:
-				o = t.Range(0, size)
-			}
-			if o < 0 {
-				o = 0
-			}
-			if o > size {
-				o = size
-			}
-			switch t.Draw(8) {
-			case 0:
-				n = 1
-			case 1:
-				n = 0
-			case 2:
-				n = 2
-			case 3:
-				n = t.Range(1, 16)
-			case 4:
-				n = t.Range(1, 100)
-			case 5:
-				n = t.Range(4000, 5000)
-			case 6:
-				n = size - o
-			default:
-				n = 1
-			}
-			readAt := t.Draw(4) == 0
-			want := ""
-			if o+n-1 < size && n >= 0 {
-				want = string(content[o : o+n])
-			}
-			if n > 4096 {
-				ctx.Count("read_longer_than_window", 1)
-			}
-			if n > 0 && o/2048 != (o+n-1)/2048 {
-				ctx.Count("read_straddles_2048_multiple", 1)
-			}
-			got, pf := safeRead(fr, readAt, n, o)
-			gotM, pm := safeRead(mr, readAt, n, o)
-			op := c07rop{Op: map[bool]string{true: "ReadAt", false: "Seek;Read"}[readAt], O: o, N: n}
-			sig = append(sig, mix(uint64(o), uint64(n), b2u(readAt)))
-			evh = mix(evh, hashStr(got), hashStr(pf))
-			if pf != "" {
-				op.Got = "PANIC " + pf
-				addV("no-panic", "reader-file-panic:"+coarse(pf), fmt.Sprintf("file reader: %s(offset %d, length %d) on a %d-byte file panics: %s", op.Op, o, n, size, pf))
-			} else if got != want {
-				op.Got = trunc(got, 40)
-				addV("model", "reader-file-wrong-bytes", fmt.Sprintf("file reader: %s(offset %d, length %d) on a %d-byte file (op %d of the history) returned %q, the file holds %q", op.Op, o, n, size, k, trunc(got, 60), trunc(want, 60)))
-			}
-			if pm != "" {
-				addV("no-panic", "reader-memory-panic:"+coarse(pm), fmt.Sprintf("in-memory reader: %s(offset %d, length %d) on %d bytes panics: %s", op.Op, o, n, size, pm))
-			} else if gotM != want {
-				addV("model", "reader-memory-wrong-bytes", fmt.Sprintf("in-memory reader: %s(offset %d, length %d) on %d bytes returned %q, want %q", op.Op, o, n, size, trunc(gotM, 60), trunc(want, 60)))
-			}
-			if len(d.Ops) < 40 {
-				d.Ops = append(d.Ops, op)
-			}
-			lastO, lastN = o, n
-			if pf != "" {
-				break // the reader is in an unknown state after a panic
-			}
+	for _, r := range rds {
+		path := filepath.Join(ctx.World, r.name)
+		if err := os.WriteFile(path, r.content, 0644); err != nil {
+			panic(err)
 		}
 		func() {
-			defer func() { recover() }()
-			fr.Close()
+			defer func() {
+				if x := recover(); x != nil {
+					addV("no-panic", "reader-open-panic:"+coarse(panicOutcome(x).Detail), fmt.Sprintf("files.ReaderFromFile on a %d-byte file panics: %s", r.size, panicOutcome(x).Detail))
+				}
+			}()
+			r.fr = files.ReaderFromFile(path)
 		}()
+		r.mr = files.ReaderFromString(string(r.content))
+		if r.fr != nil && r.fr.Size() != r.size {
+			addV("model", "reader-size", fmt.Sprintf("Size() = %d for a %d-byte file (first bytes % x)", r.fr.Size(), r.size, r.content[:min(4, len(r.content))]))
+		}
+		if len(r.content) >= 3 && r.content[0] == 0xEF && r.content[1] == 0xBB && r.content[2] == 0xBF {
+			ctx.Count("content_starts_with_bom", 1)
+		}
+	}
+	var sig []uint64
+	dead := false
+	for _, r := range rds {
+		if r.fr == nil {
+			dead = true
+		}
+	}
+	for k := 0; k < nops && !dead; k++ {
+		r := rds[0]
+		if len(rds) > 1 && t.Draw(2) == 1 {
+			r = rds[1]
+		}
+		size := r.size
+		var o, n int
+		switch t.Draw(9) {
+		case 0:
+			o = r.lastO + r.lastN // sequential forward
+		case 1:
+			o = r.lastO - 1 // one byte back (anchors)
+		case 2:
+			o = 2048*t.Range(0, size/2048+1) + t.Range(0, 4) - 2
+		case 3:
+			o = size - t.Range(0, 3)
+		case 4:
+			o = t.Range(0, 3)
+		case 5:
+			o = r.lastO - t.Range(1, 5000) // far back (backtracking)
+		case 6:
+			o = r.lastO + t.Range(1, 5000)
+		default:
+			o = t.Range(0, size)
+		}
+		if o < 0 {
+			o = 0
+		}
+		if o > size {
+			o = size
+		}
+		switch t.Draw(8) {
+		case 0:
+			n = 1
+		case 1:
+			n = 0
+		case 2:
+			n = 2
+		case 3:
+			n = t.Range(1, 16)
+		case 4:
+			n = t.Range(1, 100)
+		case 5:
+			n = t.Range(4000, 5000)
+		case 6:
+			n = size - o
+		default:
+			n = 1
+		}
+		readAt := t.Draw(4) == 0
+		want := ""
+		if o+n-1 < size && n >= 0 {
+			want = string(r.content[o : o+n])
+		}
+		if n > 4096 {
+			ctx.Count("read_longer_than_window", 1)
+		}
+		if n > 0 && o/2048 != (o+n-1)/2048 {
+			ctx.Count("read_straddles_2048_multiple", 1)
+		}
+		got, pf := safeRead(r.fr, readAt, n, o)
+		gotM, pm := safeRead(r.mr, readAt, n, o)
+		op := c07rop{Op: map[bool]string{true: "ReadAt", false: "Seek;Read"}[readAt], O: o, N: n, File: r.name}
+		sig = append(sig, mix(uint64(o), uint64(n), b2u(readAt), hashStr(r.name)))
+		evh = mix(evh, hashStr(got), hashStr(pf))
+		if pf != "" {
+			op.Got = "PANIC " + pf
+			addV("no-panic", "reader-file-panic:"+coarse(pf), fmt.Sprintf("file reader: %s(offset %d, length %d) on the %d-byte file %s panics: %s", op.Op, o, n, size, r.name, pf))
+		} else if got != want {
+			op.Got = trunc(got, 40)
+			addV("model", "reader-file-wrong-bytes", fmt.Sprintf("file reader: %s(offset %d, length %d) on the %d-byte file %s (op %d of the history, %d reader(s) open) returned %q, the file holds %q", op.Op, o, n, size, r.name, k, len(rds), trunc(got, 60), trunc(want, 60)))
+		}
+		if pm != "" {
+			addV("no-panic", "reader-memory-panic:"+coarse(pm), fmt.Sprintf("in-memory reader: %s(offset %d, length %d) on %d bytes panics: %s", op.Op, o, n, size, pm))
+		} else if gotM != want {
+			addV("model", "reader-memory-wrong-bytes", fmt.Sprintf("in-memory reader: %s(offset %d, length %d) on %d bytes returned %q, want %q", op.Op, o, n, size, trunc(gotM, 60), trunc(want, 60)))
+		}
+		if len(d.Ops) < 40 {
+			d.Ops = append(d.Ops, op)
+		}
+		r.lastO, r.lastN = o, n
+		if pf != "" {
+			break // the reader is in an unknown state after a panic
+		}
+	}
+	for _, r := range rds {
+		if r.fr != nil {
+			func() {
+				defer func() { recover() }()
+				r.fr.Close()
+			}()
+		}
 	}
 	simrt.OpEnd()
 	res.Steps = simrt.Steps
@@ -373,6 +412,16 @@ func genContent(t *Tape, size int, plant string, salt uint64) ([]byte, []int) {
 		i++
 	}
 	b = b[:size]
+	switch salt % 5 {
+	case 3:
+		if size >= 3 {
+			b[0], b[1], b[2] = 0xEF, 0xBB, 0xBF // UTF-8 byte order mark
+		}
+	case 4:
+		for k := 0; k < size; k += 97 {
+			b[k] = byte(mix(uint64(k), salt)) // sprinkle arbitrary bytes
+		}
+	}
 	var plants []int
 	if len(plant) > 0 && size > 0 {
 		np := t.Range(0, 4)
